@@ -123,13 +123,13 @@ theorem mlyLoop_aLoop (r : Rule) (p : Inst) (nti : Nat) (hsh : r.shift = 0) (hpo
   exact h
 
 /-- what a month's period offers is an instance of the rule -/
-theorem mE_inst (r : Rule) (p : Inst) (nti : Nat) (hr : WfRule r) (hp : WfInst p) (hs : SeedOk r p) (hsup : MlySup r)
+theorem mE_inst (r : Rule) (p : Inst) (nti : Nat) (hr : WfRule r) (hp : WfInst p) (hsup : MlySup r)
     (hy : 1901 ≤ p.y) (q : Nat × Int) (hq : mReach r p q) (hq2 : q.1 ≤ 2099) (z : Inst) (hz : z ∈ mE r p nti q) :
     MonthlyInst r p z := by
   obtain ⟨h1, h2, h3, ⟨j, h4⟩, h5⟩ := hq
   obtain ⟨e1, e2, e3, e4, e5, e6, e7, e8, e9⟩ :=
     (mem_mE_iff r p nti hr hp hsup q.1 q.2 ⟨by omega, hq2⟩ ⟨h1, h2⟩ z).1 hz
-  obtain ⟨t1, t2⟩ := exp_of_enum hr hp hs e7 e8 e9
+  obtain ⟨t1, t2⟩ := exp_of_enum hr hp e7 e8 e9
   refine (mlyInst_iff r p z).2 ⟨⟨by omega, by omega, e3, e4, e6, t1⟩, ⟨j, ?_⟩, ?_, e5, t2⟩
   · rw [← h4]; unfold pIdx qIdx; rw [e1, e2]
   · unfold monthOk
